@@ -51,31 +51,33 @@ type Machine struct {
 	atomicVals   map[*Value]Value
 	useSleep     bool
 
-	entered     map[string]int
-	unmodelled  map[string]int
-	redirUsed   map[string]int
-	redirects   map[string]string
-	params      map[string]int
-	concrete    map[string]uint64 // L1 replay: every nondet value is taken from this model
-	spec        *JobSpec
-	counters    map[string]int
-	rlocked     map[*Value]int
-	wgCount     map[*Value]int
-	loopBound   int
-	schedBound  int
-	asserts     int
-	chanSeq     int
-	opaqueSeq   int
-	expectPanic int
-	preempts    int
-	lastNow     *Term
-	onceRunning map[*Value]bool
-	symReads    map[string][]symRead
-	schedTrace  []int
-	fallbackMs  int
-	poisonedG   map[*ssa.Global]string
-	gWritten    map[*ssa.Global]bool
-	initDepth   int
+	entered               map[string]int
+	unmodelled            map[string]int
+	redirUsed             map[string]int
+	redirects             map[string]string
+	params                map[string]int
+	concrete              map[string]uint64 // L1 replay: every nondet value is taken from this model
+	spec                  *JobSpec
+	counters              map[string]int
+	rlocked               map[*Value]int
+	wgCount               map[*Value]int
+	loopBound             int
+	schedBound            int
+	asserts               int
+	chanSeq               int
+	opaqueSeq             int
+	expectPanic           int
+	preempts              int
+	lastNow               *Term
+	onceRunning           map[*Value]bool
+	symReads              map[string][]symRead
+	schedTrace            []int
+	fallbackMs            int
+	poisonedG             map[*ssa.Global]string
+	gWritten              map[*ssa.Global]bool
+	initDepth             int
+	preemptBound          int
+	lastEnabledForPreempt bool
 }
 
 type symRead struct{ idx, val *Term }
